@@ -30,9 +30,9 @@ if [ -n "$DEMO" ]; then
   ( cd "$D" && git apply "$SRC/patch.diff" ); rm -f "$TD/zz_seed_demo_linux_test.go"
 elif [ -f "$SRC/run.sh" ]; then
   # run.sh gets the checkout as its argument and is started from the checkout's root (both conventions occur)
-  if ( cd "$D" && sh "$SRC/run.sh" "$D" ) >"$D/.with" 2>&1; then RES_WITH=pass; else RES_WITH=fail; fi
+  if ( cd "$D" && bash "$SRC/run.sh" "$D" ) >"$D/.with" 2>&1; then RES_WITH=pass; else RES_WITH=fail; fi
   ( cd "$D" && git apply -R "$SRC/patch.diff" )
-  if ( cd "$D" && sh "$SRC/run.sh" "$D" ) >"$D/.without" 2>&1; then RES_WITHOUT=pass; else RES_WITHOUT=fail; fi
+  if ( cd "$D" && bash "$SRC/run.sh" "$D" ) >"$D/.without" 2>&1; then RES_WITHOUT=pass; else RES_WITHOUT=fail; fi
   ( cd "$D" && git apply "$SRC/patch.diff" )
 fi
 say "demo with the change: $RES_WITH (want fail); without: $RES_WITHOUT (want pass)"
